@@ -75,6 +75,9 @@ added = {
  "C31-r5": "exact expiry instants in integer nanoseconds (insert / get / clean-up at, 1 ns before and 1 ns after an expiration)",
  "C35-r5": "load matrix: every TRC kind (base of unknown ISD, trust reset, regular, sensitive) x validity start past / now / future x loader",
  "C41-r5": "185 generated length-field / version / truncation defects per frame size, sandwiched between valid packets",
+ "C01-r6": "forwarding keys of 24 and 32 bytes; MAC under the first 16 bytes of the key / under the key with its last byte altered",
+ "C10-r6": "every fault also with an IPv6 source host (reply must be addressed to it)",
+ "C41-r6": "was already reached (the global 1024-buffer frame pool is reused across the whole check) but crashed the check: a panic in the many-frames probe is now reported as a violation",
  "C02-r5": "every simulated router recycles one packet object for all packets it processes (pool-style reset), so state left behind by one packet meets the next",
  "C14-r5": "sibling links sharing the internal socket (UDPCanReuseLocal false): receive loop demultiplexes by source address",
  "C48-r4": "rings pre-filled and pre-drained to every fill level / index position before the concurrent phase",
@@ -116,6 +119,8 @@ Two sources of breakage were used; nothing below was ever committed to `/repo`.
    given back to the check's author with the instruction to extend the check *along the missing dimension* - never to
    special-case the seeded input - while keeping both tiers silent on the unchanged tree:
 {round_lines}
+   (Round 6 was a partial round on the 18 properties with the most earlier misses; for C29 the seeding agent found no
+   change that breaks the property and keeps the combinator's own tests green.)
 
 What the misses had in common - and what the extensions therefore added - were dimensions of *identity* (same AS
 number in another ISD, AS-local interface numbers, stream ids differing in high bits, permuted certificate order),
